@@ -36,6 +36,7 @@ class Vec:
     """Opaque vector: supports the arithmetic minimize does on steps/points; only norms are observed."""
     _vcx_symbolic = True
     _vcx_asarray = True
+    __array_ufunc__ = None
 
     def __init__(self, tag="v"):
         self.tag = tag
